@@ -231,10 +231,12 @@ def run_C03(run):
     run.gen_and_replay("MC_Expr", consts(ec, Family="C03b", MaxNodes=4 if q else 5), name="pos-then-bool", kind="sel-set")
     # (2a) a positional child step continued by a step on every axis, by '//', by another positional step
     run.gen_and_replay("MC_Expr", consts(ec, Family="C03cont", MaxNodes=1 if q else 5, CatIds={3, 5, 7} if q else ALL_CAT), name="pos-then-steps", kind="sel-set")
+    # (2a') the positional forms used as predicates: re-evaluated for every candidate of the host step
+    run.gen_and_replay("MC_Expr", consts(ec, Family="C03nested", MaxNodes=1 if q else 5, CatIds={3, 5, 7} if q else ALL_CAT), name="pos-nested", kind="sel-set")
     # (2b) XQueryVM2 on numeric predicates (position counters, positmap, merge rewrite, (path)[n] re-rooting)
     vm2_stage(run, {2, 3, 4, 5}, "C03")
-    for dev in ("pos-ignores-test", "child-posit-not-reset"):
-        r = run.tlc("MC_VM2", consts(VM2_BASE, Deviations={dev}, Parts={2, 5}, HostAxes={"child"}), invariants=("VM2Refines",),
+    for dev in ("pos-ignores-test", "child-posit-not-reset", "group-posit-not-reset"):
+        r = run.tlc("MC_VM2", consts(VM2_BASE, Deviations={dev}, Parts={2, 4, 5}, HostAxes={"child"}), invariants=("VM2Refines",),
                     name="vm2-deviation-" + dev, out=False, allow_violation=True)
         if "Invariant VM2Refines is violated" not in r["log"]:
             raise ToolingError("XQueryVM2 does not refute the re-introduced defect %s: vacuous model" % dev)
@@ -540,6 +542,14 @@ def run_C12(run):
         run.tlc("MC_Api", {"MaxIters": 2, "MaxCalls": 7 if q else 8, "Mode": mode, "DocId": doc, "ExprId": ex},
                 invariants=("GivenInTarget", "OnceNoDup", "CompleteAtFalse", "SeqOrder", "Purity", "ValidatorAcceptsSpec"),
                 properties=("StickyFalse",), name="api-machine-%s-e%d-d%d" % (mode, ex, doc), out=False)
+    # design level: in the implementation-shaped model XQueryVM every flat path is delivered in strictly increasing document
+    # order (TLC invariant VMOrdered); the engine's delivery SEQUENCE is then compared with the model's (kind vm)
+    vm = consts(BASE_PATHS, MaxNodes=3 if q else 4, MaxSteps=2 if q else 3, CatSteps=2, CatIds=ALL_CAT, Deviations=set(),
+                StepAxes={"child", "attribute", "self", "descendant", "descendant-or-self"},
+                TestKinds={"any", "node", "text"}, TestNames={"a"})
+    r = run.tlc("MC_VM", vm, invariants=("VMRefines", "VMOrdered", "Emit"), name="vm-flat-ordered")
+    stats, drift = run.replay(r["outfile"], kind="vm", render="full", stage="vm-flat-conformance")
+    run.drift = getattr(run, "drift", []) + drift
     # flat paths: exact document order; every node-set expression: protocol
     run.hist("C12" if q else "C12big", 3 if q else 4, nslots=1, maxiters=2, docs_per=2 if q else 4, stage="hist-flat")
     run.hist("C04", 4 if q else 5, nslots=1, maxiters=2, docs_per=1, stage="hist-nonflat")
